@@ -666,3 +666,26 @@ package profile
 //@     invariant 0 <= $i && $i <= len(p.SampleType)
 //@   loop 2
 //@     invariant 0 <= $i && $i <= len(p.SampleType)
+
+// ---- C03: zero-sample test and mapping memoisation (strengthened after seeded changes C03-zero-sample-test-sums-components, C03-mapping-offset-lost-in-id-memo) ----
+//@ func isZeroSample arith bv
+//@   requires s != nil
+//@   ensures allzero: result <==> forall i int :: 0 <= i && i < len(s.Value) ==> s.Value[i] == 0
+//@   loop 1
+//@     invariant 0 <= $i && $i <= len(s.Value)
+//@     invariant forall i int :: 0 <= i && i < $i ==> s.Value[i] == 0
+
+// mapMapping: the returned (mapping, offset) rebases src onto the merged mapping, and the per-id memo holds
+// exactly what was returned, so later lookups by id rebase the same way.
+//@ func profileMerger.mapMapping arith bv
+//@   requires pm != nil && pm.p != nil && pm.mappings != nil && pm.mappingsByID != nil
+//@   requires forall k mappingKey :: has(pm.mappings, k) ==> pm.mappings[k] != nil
+//@   ensures nilsrc: src == nil ==> result.m == nil && result.offset == 0
+//@   ensures memoized: src != nil ==> has(pm.mappingsByID, src.ID) && pm.mappingsByID[src.ID].m == result.m && pm.mappingsByID[src.ID].offset == result.offset
+//@   ensures rebase: src != nil && !old(has(pm.mappingsByID, src.ID)) ==> result.m != nil && result.offset == int64(result.m.Start) - int64(src.Start)
+//@   ensures created_off: src != nil && fresh(result.m) ==> result.offset == 0 && result.m.ID == uint64(old(len(pm.p.Mapping)) + 1)
+//@   ensures created_range: src != nil && fresh(result.m) ==> result.m.Start == src.Start && result.m.Limit == src.Limit && result.m.Offset == src.Offset
+//@   ensures created_names: src != nil && fresh(result.m) ==> result.m.File == src.File && result.m.BuildID == src.BuildID && result.m.KernelRelocationSymbol == src.KernelRelocationSymbol
+//@   ensures created_flags: src != nil && fresh(result.m) ==> (result.m.HasFunctions <==> src.HasFunctions) && (result.m.HasFilenames <==> src.HasFilenames)
+//@       && (result.m.HasLineNumbers <==> src.HasLineNumbers) && (result.m.HasInlineFrames <==> src.HasInlineFrames)
+//@   ensures created_listed: src != nil && fresh(result.m) ==> len(pm.p.Mapping) == old(len(pm.p.Mapping)) + 1 && pm.p.Mapping[len(pm.p.Mapping) - 1] == result.m
